@@ -50,6 +50,8 @@ def cases(tier, seed):
     yield "big", dict(kind="blank")
     yield "big", dict(kind="nan_image")
     yield "big", dict(kind="grid7")
+    for proj in ("SIN", "ZEA", "TAN"):      # wide fields: sources up to 16 deg from the reference pixel, no psf map
+        yield "big", dict(kind="wide_" + proj)
     if tier != "quick":
         yield "big", dict(kind="grid14")
     for names in (["blend3", "negative"], ["point"], ["tiny", "small"]):
@@ -246,6 +248,30 @@ def ev_big(case, ctx):
                 ctx.violation("priorized fit of an empty catalogue returned sources", "empty_catalogue|" + sig)
         except Exception as e:
             ctx.violation("priorized fit of an empty catalogue raised %r" % (e,), "raise|%s,empty" % sig)
+        return
+    if kind.startswith("wide_"):
+        from mc.oracles import wcs_zenithal as wz
+        from mc.oracles import skygauss
+        shape = (330, 350)
+        scale = 0.1
+        hdr = wz.make_header(kind[5:], (35.0 + core.seed_shift(ctx.seed, 3, 20.0), -27.0), scale, shape, beam=(4 * scale, 3 * scale, 0.0),
+                             crpix=(shape[1] / 2.0 + 0.5, shape[0] / 2.0 + 0.5))
+        srcs = []
+        k = 0
+        for dist in (0.0, 50.0, 100.0, 157.0):          # pixels from the reference pixel = 0, 5, 10, 15.7 degrees
+            for ang in ([0.0] if dist == 0 else [20.0, 110.0, 200.0, 290.0]):
+                r = shape[0] / 2.0 - 0.5 + dist * np.cos(np.radians(ang)) + 0.3
+                c = shape[1] / 2.0 - 0.5 + dist * np.sin(np.radians(ang)) - 0.2
+                srcs.append(skygauss.source_at_pixel(hdr, r, c, [1.0, -0.8, 0.6][k % 3], 5.0 + 0.5 * (k % 3), 3.5, -70.0 + 25.0 * k))
+                k += 1
+        img = skygauss.render(hdr, shape, srcs)
+        scenes.write_image(f, hdr, img)
+        img32 = np.asarray(img, dtype=np.float32).astype(np.float64)
+        res = run_modes(f, hdr, img32, ctx, sig, modes=["blind", "island", "p1r", "p3r", "p2n"])
+        ctx.nontrivial(sig)
+        b = res.get("blind") or []
+        if len(b) != len(srcs):
+            ctx.violation("%d components for %d isolated sources (%s)" % (len(b), len(srcs), sig), "big_count|" + sig)
         return
     n, shape = (7, (256, 256)) if kind == "grid7" else (14, (512, 512))
     hdr, img, srcs = scenes.grid_scene(n, shape)
